@@ -36,9 +36,14 @@ fn judge_fault(sc: &Scenario, ex: &mut Exec, kind: K, idx: u64, errno: i32, fire
     }
     {
         let inv = ex.w.inv.lock().unwrap();
-        if let Some((n, m)) = inv.violations.iter().find(|(n, _)| matches!(*n, "content" | "mode" | "immutable" | "readonly")) {
+        if let Some((n, m)) = inv.violations.iter().find(|(n, _)| matches!(*n, "content" | "mode" | "immutable" | "readonly" | "double-close")) {
             return mk(n, m.clone());
         }
+    }
+    // (4') nothing stays open after the call (the harness has read and dropped
+    // whatever handle was returned)
+    if res.fds_after > res.fds_before {
+        return mk("fd-leak", format!("{} descriptor(s) of the process stayed open after {:?} #{} failed with {} ({})", res.fds_after - res.fds_before, kind, idx, errno_name(errno), res.short()));
     }
     // (4) no library temp file leaked
     let after = ex.w.fs_clone();
